@@ -377,3 +377,159 @@ Proof. unfold upd. now rewrite Nat.eqb_refl. Qed.
 Lemma upd_other m g v h : h <> g -> upd m g v h = m h.
 Proof. unfold upd. intros H. destruct (Nat.eqb_spec h g); congruence. Qed.
 
+Ltac wok_tac := unfold wok; cbn; repeat split; intros; try lia; try congruence.
+
+Lemma cnt_ge1 g l n w : nth_error l n = Some w -> pend g w = 1 -> 1 <= cnt g l.
+Proof.
+  revert n; induction l as [|y r IH]; intros [|n]; cbn; try discriminate.
+  - intros [= ->] H. lia.
+  - intros H1 H2. specialize (IH _ H1 H2). lia.
+Qed.
+
+Ltac fin_tac Hp Hpc :=
+  try solve [wok_tac];
+  try solve [intros h; unfold pend; cbn; rewrite Hp, Hpc; cbn; reflexivity];
+  try solve [unfold called1; cbn; rewrite Hp, ?Hpc; cbn; reflexivity];
+  try solve [intros h Hx; congruence];
+  try solve [now rewrite app_nil_r].
+
+Lemma Inv_worker_step s n : Inv s -> Inv (worker_step f s n).
+Proof.
+  intros HI. unfold worker_step. destruct (nth_error (ws s) n) as [w|] eqn:Hn; [|exact HI].
+  pose proof (wok_nth _ _ _ HI Hn) as [Hle3 [Hcall Hfwd]].
+  destruct (w_prog w) as [k g c|g] eqn:Hp; destruct (w_pc w) as [|[|[|pc]]] eqn:Hpc; try exact HI.
+  - (* call *)
+    eapply Inv_worker with (w := w) (extra := [c]); eauto; cbn; try lia; fin_tac Hp Hpc.
+  - (* store *)
+    destruct (Hcall _ _ _ eq_refl) as [Htmp _]. specialize (Htmp ltac:(lia)).
+    eapply Inv_worker with (w := w) (extra := []); eauto; cbn; try lia; fin_tac Hp Hpc.
+  - (* Done of a call goroutine *)
+    destruct (Hcall _ _ _ eq_refl) as [Htmp Hslot]. specialize (Htmp ltac:(lia)). specialize (Hslot ltac:(lia)).
+    eapply Inv_worker with (w := w) (extra := []); eauto; cbn; try lia; fin_tac Hp Hpc.
+    intros h. unfold pend, done_on; cbn. rewrite Hp, Hpc. cbn.
+    destruct (counted k) eqn:Ek; [|reflexivity].
+    destruct (Nat.eqb_spec g h) as [->|Hne].
+    + rewrite upd_same. pose proof (I_wg _ HI h) as Hc.
+      assert (1 <= cnt h (ws s)).
+      { eapply cnt_ge1; eauto. unfold pend. rewrite Hp, Hpc. cbn. rewrite Ek, Nat.eqb_refl. reflexivity. }
+      lia.
+    + rewrite upd_other by congruence. lia.
+  - (* forwarder: Wait *)
+    destruct (Nat.eqb_spec (wgs s g) 0) as [Hz|Hnz]; [|exact HI].
+    eapply Inv_worker with (w := w) (extra := []); eauto; cbn; try lia; fin_tac Hp Hpc.
+  - (* forwarder: Done on the root *)
+    eapply Inv_worker with (w := w) (extra := []); eauto; cbn; try lia; fin_tac Hp Hpc.
+    + intros h. unfold pend, done_on. cbn [w_prog w_pc]. rewrite Hp, Hpc. cbn [target].
+      destruct (Nat.eqb_spec 0 h) as [<-|Hne].
+      * rewrite upd_same. pose proof (I_wg _ HI 0) as Hc.
+        assert (1 <= cnt 0 (ws s)).
+        { eapply cnt_ge1; eauto. unfold pend. rewrite Hp, Hpc. reflexivity. }
+        cbn. lia.
+      * rewrite upd_other by congruence. destruct h; cbn; lia.
+    + intros h Hx _. injection Hx as <-.
+      (* the forwarder passed its Wait at pc 2 already *)
+      destruct (Nat.eqb_spec g 0) as [->|Hg0].
+      * exfalso. pose proof (I_ws _ HI) as Hw. pose proof (I_split _ HI) as Hs.
+        assert (Hin : In (WFwd 0) (spawned (m_done s))).
+        { rewrite <- Hw. rewrite <- Hp. apply in_map. eapply nth_error_In; eauto. }
+        apply in_spawned_fwd in Hin. eapply (wfP_fwd_nonroot acts 0); eauto.
+        rewrite Hs. apply in_or_app. now left.
+      * unfold done_on; cbn. rewrite upd_other by auto.
+        eapply (I_fwd _ HI w g); eauto. eapply nth_error_In; eauto. lia.
+Qed.
+
+Lemma slots_ideal l :
+  Forall (wok f) l -> (forall w, In w l -> target (w_prog w) <> None -> w_pc w = 3) ->
+  slots_of l = map (ideal_slot f) (map w_prog l).
+Proof.
+  intros Hok Hdone. unfold slots_of. rewrite map_map. apply map_ext_in.
+  intros w Hin. rewrite Forall_forall in Hok. destruct (Hok _ Hin) as [_ [Hcall _]].
+  destruct (w_prog w) as [k g c|g] eqn:Hp; cbn; [|reflexivity].
+  destruct k; try reflexivity.
+  destruct (Hcall _ _ _ eq_refl) as [_ Hslot]. apply Hslot.
+  rewrite (Hdone _ Hin); [lia|]. rewrite Hp. cbn. discriminate.
+Qed.
+
+Lemma Inv_main_step s : Inv s -> Inv (main_step e s).
+Proof.
+  intros HI. unfold main_step. destruct (m_res s) as [r|] eqn:Hres; [exact HI|].
+  destruct (m_todo s) as [|a rest] eqn:Htodo.
+  - (* end of the action list *)
+    destruct e as [|t] eqn:He.
+    + (* exec returned an error *)
+      destruct HI as [Hs Hw Hok Hg Hf Hl Hp Hr]. constructor; cbn; auto.
+      * rewrite Hs, Htodo. reflexivity.
+      * intros Hph. destruct (Hp Hph) as [_ [[t Ht] _]]. rewrite He in Ht. discriminate.
+      * intros r [= <-]. rewrite He. repeat split. intros t Ht. discriminate.
+    + destruct (m_phase s) eqn:Hph.
+      * (* Wait *)
+        destruct (Nat.eqb_spec (wgs s 0) 0) as [Hz|Hnz]; [|exact HI].
+        pose proof HI as [Hs Hw Hok Hg Hf Hl Hp Hr]. constructor; cbn; auto.
+        -- rewrite Hs, Htodo. reflexivity.
+        -- intros _. split; [reflexivity|]. split; [now exists t|].
+           intros w Hin Ht.
+           assert (Hle : w_pc w <= 3).
+           { rewrite Forall_forall in Hok. now destruct (Hok _ Hin). }
+           destruct (target (w_prog w)) as [g|] eqn:Etg; [|congruence].
+           assert (Hz0 : forall w0, In w0 (ws s) -> target (w_prog w0) = Some 0 -> w_pc w0 = 3).
+           { intros w0 Hin0 Ht0. rewrite Hg in Hz.
+             pose proof (cnt_zero_pc _ _ _ Hz Hin0 Ht0).
+             rewrite Forall_forall in Hok. destruct (Hok _ Hin0). lia. }
+           destruct (Nat.eqb_spec g 0) as [->|Hg0]; [auto|].
+           (* a nested group: its forwarder was started and has finished *)
+           assert (Hdone : m_done s = acts) by (rewrite Hs, Htodo, app_nil_r; reflexivity).
+           destruct (w_prog w) as [k g' c|g'] eqn:Hpw; cbn in Etg; [|congruence].
+           destruct (counted k) eqn:Ek; [|discriminate]. injection Etg as ->.
+           assert (Hin1 : In (ASpawn k g c) acts).
+           { rewrite <- Hdone. apply in_spawned_call. rewrite <- Hw, <- Hpw. now apply in_map. }
+           pose proof (coveredP_in _ _ _ _ (Hcov t eq_refl) Hin1 Ek Hg0) as Hfw.
+           rewrite <- Hdone in Hfw. apply in_fwd_spawned in Hfw. rewrite <- Hw in Hfw.
+           apply in_map_iff in Hfw. destruct Hfw as [w1 [Hp1 Hin1']].
+           assert (Hpc1 : w_pc w1 = 3) by (apply Hz0; [auto|rewrite Hp1; reflexivity]).
+           assert (Hzg : wgs s g = 0) by (eapply Hf; eauto; lia).
+           rewrite Hg in Hzg.
+           assert (3 <= w_pc w).
+           { eapply cnt_zero_pc; eauto. rewrite Hpw. cbn. now rewrite Ek. }
+           lia.
+        -- discriminate.
+      * (* post-processors after the wait *)
+        pose proof HI as [Hs Hw Hok Hg Hf Hl Hp Hr].
+        destruct Hp as [_ [_ Hall]]; [congruence|].
+        constructor; cbn; auto.
+        -- rewrite Hs, Htodo. reflexivity.
+        -- intros _. repeat split; eauto.
+        -- intros r [= <-]. rewrite He. repeat split; auto. cbn.
+           unfold ideal_slots. f_equal. rewrite slots_ideal; auto. rewrite Hw.
+           rewrite Hs, Htodo, app_nil_r. reflexivity.
+      * pose proof HI as [Hs Hw Hok Hg Hf Hl Hp Hr].
+        destruct Hp as [_ [_ Hall]]; [congruence|].
+        constructor; cbn; auto.
+        -- rewrite Hs, Htodo. reflexivity.
+        -- intros _. repeat split; eauto.
+        -- intros r [= <-]. rewrite He. repeat split; auto. cbn.
+           unfold ideal_slots. f_equal. rewrite slots_ideal; auto. rewrite Hw.
+           rewrite Hs, Htodo, app_nil_r. reflexivity.
+  - destruct a as [c|k g c|g].
+    + (* synchronous call *)
+      pose proof HI as [Hs Hw Hok Hg Hf Hl Hp Hr].
+      assert (Hph : m_phase s = Running).
+      { destruct (m_phase s) eqn:E; auto; destruct Hp as [Hp _]; try congruence. }
+      constructor; cbn; auto.
+      * rewrite Hs, Htodo. apply split_snoc.
+      * rewrite spawned_snoc, app_nil_r. exact Hw.
+      * rewrite sync_calls_snoc. rewrite Hl. rewrite <- !app_assoc. apply Permutation_app_head.
+        apply Permutation_app_comm.
+      * rewrite Hph. congruence.
+      * discriminate.
+    + apply (Inv_spawn s (ASpawn k g c) rest (WCall k g c)); auto.
+    + apply (Inv_spawn s (AFwd g) rest (WFwd g)); auto.
+Qed.
+
+Lemma Inv_step s t : Inv s -> Inv (step f e s t).
+Proof. destruct t; cbn; [apply Inv_main_step|apply Inv_worker_step]. Qed.
+
+Theorem Inv_run sched : Inv (run f acts e sched).
+Proof.
+  unfold run. assert (H : Inv (init acts)) by apply Inv_init. revert H. generalize (init acts).
+  induction sched as [|t sched IH]; cbn; intros s H; [exact H|]. apply IH, Inv_step, H.
+Qed.
